@@ -289,3 +289,32 @@ def twin_case(rng):
                 n.id = '_%s_' % n.id
         pats.append((ast.unparse(tree) + '\n', {'names': ren, 'exps': {}, 'steps': ['whole', 'drop', 'rename', 'twin']}))
     return program, pats
+
+
+def call_twins(rng):
+    """assignments of calls to two or three different functions, interleaved; patterns keep the calls of ONE function
+    (the others are dropped), rename the function to a placeholder used in every kept statement, the targets to
+    placeholders, and generalise some arguments.  -> (program, [(pattern, expectations)])"""
+    funcs = rng.sample(['foo', 'bar', 'baz', 'load'], rng.randrange(2, 4))
+    n = rng.randrange(3, 7)
+    stmts = []
+    for k in range(n):
+        f = rng.choice(funcs)
+        stmts.append((f, 'r%d = %s(%d)\n' % (k, f, rng.randrange(1, 4))))
+    program = ''.join(s for _, s in stmts)
+    pats = []
+    for f in funcs:
+        kept = [s for g, s in stmts if g == f]
+        if len(kept) < 2:
+            continue
+        tree = ast.parse(''.join(kept))
+        ren = {'_f_': f}
+        for k, node in enumerate(tree.body):
+            tgt = node.targets[0]
+            ren['_%s_' % tgt.id] = tgt.id
+            tgt.id = '_%s_' % tgt.id
+            node.value.func.id = '_f_'
+            if rng.random() < 0.5:
+                node.value.args[0] = ast.Name(id='___', ctx=ast.Load())
+        pats.append((ast.unparse(tree) + '\n', {'names': ren, 'exps': {}, 'steps': ['whole', 'drop', 'rename', 'hole', 'call-twins']}))
+    return program, pats
